@@ -373,7 +373,7 @@ def roundtrip(ctx, W, bad):
                 for it in items:
                     if isinstance(it, tuple) and it[0] == "L":
                         cur = it[1]
-                    elif isinstance(it, tuple) and it[0] == "i":
+                    elif isinstance(it, tuple) and it[0] in ("i", "s"):
                         span = cur if it[1] else None
                     elif isinstance(it, str):
                         want_chars += [(ch, span or clay or lay_lang) for ch in it if ch.strip()]
